@@ -12,12 +12,18 @@ def make_base(ctx, k):
         t, _m = gen.mutate_tree(ctx.rng, trees[-1])
         trees.append(t)
     steps = [{"op": "init"}]
-    for t in trees:
-        steps += [{"op": "mktree", "path": "src", "tree": t}, {"op": "walk"}, {"op": "backup", "opts": scen.small_opts(ctx.rng)}]
+    # every third base: a version in the middle is the file-less leftover of a backup killed before it wrote its head
+    # (a listed version directory that cannot be opened): deleting it must work like deleting any other
+    headless = [ctx.rng.randrange(0, nb - 1)] if (k % 3 == 1 and nb >= 2) else []
+    for j, t in enumerate(trees):
+        st = {"op": "backup", "opts": scen.small_opts(ctx.rng)}
+        if j in headless:
+            st["plan"] = {"crash": ctx.rng.choice([5, 6])}
+        steps += [{"op": "mktree", "path": "src", "tree": t}, {"op": "walk"}, st]
     steps.append({"op": "arch"})
     for b in range(nb):
         steps.append({"op": "restore", "band": b, "dest": f"ref{b}"})
-    return {"id": f"D{k}", "nb": nb, "trees": trees, "steps": steps}
+    return {"id": f"D{k}", "nb": nb, "trees": trees, "steps": steps, "headless": headless}
 
 
 def after_steps(nb):
@@ -53,7 +59,7 @@ def check_after(ctx, base, ids, dry, rules_desc, r_del, post, kind, pre_arch):
                 ctx.oracle_fail("delete/remaining-version-harmed", f"delete of {ids} stopped ({kind} {rules_desc}) with b{b:04d} still present and complete, "
                                                                    f"but it no longer restores exactly: {json.dumps(got.get('err') or got.get('monitor_errors'))[:160]}", small)
                 return False
-        if must_survive:
+        if must_survive and want.get("result") == "ok":
             if got.get("result") != "ok" or got.get("monitor_errors") or scen.first_difference(scen.strip(want.get("tree")), scen.strip(got.get("tree"))):
                 ctx.oracle_fail("delete/kept-version-harmed", f"after delete of {ids} (dry={dry}, {kind} {rules_desc}) kept version b{b:04d} no longer restores "
                                                               f"exactly: {json.dumps(got.get('err') or got.get('monitor_errors'))[:160]}", small)
@@ -131,6 +137,8 @@ def run(ctx):
         if r is None or dry:
             continue
         nbase = len(b["steps"])
+        if r[nbase].get("result") != "ok":
+            continue        # a refused delete: its lock is released from Drop by a detached task, which a kill there does not stop the call from returning
         trace = l4.canon_trace(r[nbase]["trace"])
         n = len(trace)
         ks = range(n) if not quick else sorted(set(range(0, n, 3)) | {k for k in range(n) if trace[k]["verb"] in ("RemoveFile", "RemoveDirAll", "Write")})
@@ -159,6 +167,12 @@ def run(ctx):
         rd = r[nbase]
         post = r[nbase + 1:]
         eff_kind = kind
+        if kind == "ok" and rd.get("result") != "ok" and any(h not in ids for h in b.get("headless", [])):
+            # a version that is kept cannot be opened: which blocks it references is unknown, so the delete refuses
+            ctx.dist("refused_kept_version_unopenable")
+            if check_after(ctx, b, ids, dry, rules, rd, post, "fault", r[nbase - b["nb"] - 1]["arch"]):
+                good.append((c, r, inf))
+            continue
         if kind == "ok" and rd.get("result") != "ok":
             ctx.oracle_fail("delete/fault-free-delete-failed", f"fault-free delete of {ids} failed: {json.dumps(rd.get('err'))[:200]}", {"base_steps": b["steps"], "delete": ids})
             continue
@@ -183,7 +197,9 @@ def run(ctx):
             scen.collect_names(names, c["steps"], r)
         base = l4.History(b["id"], names)
         for st, rs in zip(b["steps"], b["ref"]):
-            if st["op"] not in ("arch", "restore"):
+            if st["op"] == "backup" and st.get("plan") and rs.get("crashed"):
+                base.add(st, rs, mode=1, crash=(st["plan"]["crash"], False))
+            elif st["op"] not in ("arch", "restore"):
                 base.add(st, rs)
         hs.append(base)
         sel = by_base[b["id"]]
